@@ -238,7 +238,7 @@ def _mk_getter(name, with_none):
 
 
 def held(st):
-    return any(k.endswith('mdib_lock') for k in st.ghost.get('locks', ()))
+    return any(_c02.is_lock(k, 'mdib_lock') for k in st.ghost.get('locks', ()))
 
 
 for _n, _wn in (('by_handle', True), ('by_node_type', False), ('by_parent_handle', False)):
